@@ -92,6 +92,8 @@ def plan(prop, tier):
                   MaxLen=3 if q else 4),
                 G("caps12", Leaves="<-LvG12", Quants="<-QOptOnly", MaxSize=2, MaxGroups=13, Repl2="<-ReplG12", MaxLen=3,
                   invs=["T1_RoundTrip", "T3_Leftmost"]),
+                G("nest", Leaves="<-LvNest", Quants="<-QBasic" if q else "<-QBasicLazy", MaxSize=5, MaxGroups=9, Shapes="<-ShapesNoGrp", MaxLen=3,
+                  Repl2="<-ReplG2", invs=["T1_RoundTrip", "T3_Leftmost"]),
                 G("mlcaps", Leaves="<-LvMlCaps", Quants="<-QOptOnly", MaxSize=5 if q else 6, MaxGroups=9, FlagSets="<-FlagsM",
                   Shapes="<-ShapesNoGrp", Alpha="{97, 98, 10}", MaxLen=3, Repl2="<-ReplG2", invs=["T1_RoundTrip", "T3_Leftmost"]),
                 T("rand", "groups", 2000, 40000), T("mlg", "mlgroups", 1000, 20000)]
@@ -111,6 +113,8 @@ def plan(prop, tier):
                 K("wide", Toks='"wide"', MaxToks=3 if q else 4),
                 K("lit", Mode='"lit"', Toks='"meta"', MaxToks=2 if q else 3),
                 G("valid", Leaves="<-LvAll", Quants="<-QAll", MaxSize=3, MaxLen=2, invs=["T1_RoundTrip"]),
+                G("nest", Leaves="<-LvNest", Quants="<-QBasic" if q else "<-QBasicLazy", MaxSize=5, MaxGroups=9, Shapes="<-ShapesNoGrp", MaxLen=3,
+                  invs=["T1_RoundTrip"]),
                 T("mut", "general", 2000, 40000, mode="mutants"), T("garbage", "general", 2000, 60000, mode="garbage"),
                 T("bounds", "general", 2200, 21000, mode="bounds"), T("rand", "groups", 1500, 30000),
                 T("dial", "dialect", 1000, 20000, mode="mutants")] + ([] if q else [SUITE])
@@ -126,6 +130,7 @@ def plan(prop, tier):
                 K("wide", Toks='"wide"', MaxToks=3 if q else 4),
                 K("class", Toks='"class"', MaxToks=5 if q else 6),
                 K("flags", Mode='"flags"', MaxToks=3),
+                K("tokx", Toks='"xws"', MaxToks=4 if q else 5, FlagAlpha='"x"'),
                 G("valid", Leaves="<-LvAll", Quants="<-QAll", MaxSize=3, MaxLen=1, invs=["T1_RoundTrip"]),
                 T("mut", "general", 2000, 40000, mode="mutants"), T("rand", "classes", 1000, 20000)]
     if prop == "C13":
@@ -147,6 +152,8 @@ def plan(prop, tier):
                        Alpha="{97, 98}", MaxLen=5 if q else 6,
                        invs=["T1_RoundTrip", "T2_OrderFree"] + ([] if q else ["T18_SearchSound"])), **o),
                 dict(G("sem", MaxSize=3 if q else 4, MaxLen=3), **o),
+                dict(G("casei", Leaves="<-LvCaseOpt", Quants="<-QBasicLazy", MaxSize=3, MaxLen=3, FlagSets="<-FlagsI",
+                       Alpha="{233, 201, 955}", invs=["T1_RoundTrip", "T2_OrderFree", "T18_SearchSound"]), **o),
                 T("rand", "general", 2000, 40000, unopt=True), T("case", "case", 1000, 20000, unopt=True),
                 {"type": "facts", "tag": "facts", "profiles": [("general", 400, 6000), ("anchors", 300, 4000), ("case", 300, 4000)]}]
     if prop == "C09":
@@ -165,6 +172,8 @@ def plan(prop, tier):
                   Alpha="{955, 923, 1073, 1041}", MaxLen=2 if q else 3),
                 G("deseret", Leaves="<-LvCaseDs", Quants="<-QSmall", MaxSize=3, FlagSets="<-FlagsI",
                   Alpha="{66600, 66560, 97}", MaxLen=3),
+                G("punct", Leaves="<-LvPunct", Quants="<-QBasic", MaxSize=2 if q else 3, FlagSets="<-FlagsI",
+                  Alpha="{91, 123, 94, 126, 64, 96, 95, 127, 92, 124}", MaxLen=2),
                 T("rand", "case", 2000, 40000)]
     if prop == "C12":
         return [G("anch", Leaves="<-LvAnch", Quants="<-QBasicLazy", MaxSize=3 if q else 4, FlagSets="<-FlagsMS",
@@ -176,7 +185,9 @@ def plan(prop, tier):
                 G("ws2", Leaves="<-LvWs", Quants="<-QBasic", MaxSize=2, MaxLen=2, Variants='{"ws2"}', invs=["T1_RoundTrip"]),
                 T("rand", "dialect", 1500, 30000)]
     if prop == "C16":
-        return [G("null", Leaves="<-LvSem", Quants="<-QAll", MaxSize=4, MaxLen=2 if q else 4)] + \
+        return [G("null", Leaves="<-LvSem", Quants="<-QAll", MaxSize=4, MaxLen=2 if q else 4),
+                G("dynempty", Leaves="<-LvDynEmpty", Quants="<-QCount2", MaxSize=3 if q else 4, MaxLen=2, FlagSets="<-FlagsM",
+                  Alpha="{97, 98}")] + \
                ([] if q else [G("null5", Leaves="<-LvLoop", Quants="<-QBasicLazy", MaxSize=5, MaxLen=2)]) + [
                 T("rand", "general", 1500, 30000)]
     if prop == "C17":
@@ -184,8 +195,8 @@ def plan(prop, tier):
                 K("flags", Mode='"flags"', MaxToks=2 if q else 3, Dialects="{FALSE}"),
                 G("lazyq", Leaves="<-LvAB", Quants="<-QDial", MaxSize=3, MaxLen=2, Variants='{"base", "xsd"}',
                   invs=["T1_RoundTrip"]),
-                G("dial", Leaves="<-LvDial", Quants="<-QSmall", MaxSize=3 if q else 4, MaxLen=3,
-                  Variants='{"base", "xsd"}', invs=THEOREMS + ["T13_Dialect"]),
+                G("dial", Leaves="<-LvDial", Quants="<-QSmall", MaxSize=3 if q else 4, MaxLen=3, FlagSets="<-FlagsS",
+                  Alpha="{97, 10}", Variants='{"base", "xsd"}', invs=THEOREMS + ["T13_Dialect"]),
                 T("rand", "dialect", 2000, 40000)]
     if prop == "C18":
         return [{"type": "apimc", "tag": "mc", "consts": {"Depth": 6 if q else 8, "RegIds": "{1, 2}", "ItIds": "{1, 2}",
